@@ -155,7 +155,7 @@ def run_sessions(sessions):
         args = dict(sess.get("args", {}))
         args["boom"] = boom
 
-        def body(k, m, boom):
+        def body_impl():
             for step in sess["steps"]:
                 arr_t, val = make_value(step)
                 b, ann = build(step.get("cat", "Float"), arr_t, step["dim"])
@@ -181,8 +181,12 @@ def run_sessions(sessions):
                     r["idem"] = (v2 == "acc" and m1 == m2 and [list(x) for x in m1] == [list(x) for x in m2])
                 res.append(r)
 
+        # the decorated function has exactly the session's arguments as parameters (some are named like axes)
+        g = {"body_impl": body_impl}
+        exec("def body(%s):\n    return body_impl()\n" % ", ".join(sorted(args)), g)
+        body = g["body"]
         if sess.get("nocontext"):
-            body(args.get("k"), args.get("m"), boom)
+            body(**args)
         else:
             f = jaxtyped(typechecker=None)(body)
             import warnings
